@@ -14,8 +14,10 @@ package main
 //
 // Datagram stack:
 //
-//	fn=framesd stack=dtlcp hv=0|1 ops=<op>,.. dgrams=<hex>/<hex>/..
-//	    a raw server connection whose socket holds the datagrams and then fails;
+//	fn=framesd stack=dtlcp hv=0|1 ops=<op>,.. dgrams=<hex>/<hex>/.. [flood=<n>x<size>]
+//	    a raw server connection whose socket holds the datagrams and then fails; flood = n more
+//	    datagrams after the listed ones, each ONE handshake record (epoch 0, record sequence
+//	    numbers 1000, 1001, ..) of `size` zero bytes;
 //	    ops: H = c.readHandshake, R = c.readRecord, F = complete, D = Conn.Read
 //	    => steps=.. lens=<handBuf>.<rawInputBuf>.<retry>.<pending buffers>.<pending bytes>,..
 
@@ -154,6 +156,14 @@ func execFramesD(desc string) string {
 	if dg != "-" && dg != "" {
 		for _, d := range strings.Split(dg, "/") {
 			se.Deliver(hx.UnHex(d), ce.LocalAddr())
+		}
+	}
+	if fl, ok := hx.KV(desc, "flood"); ok {
+		var n, size int
+		if _, err := fmt.Sscanf(fl, "%dx%d", &n, &size); err == nil && n <= 4096 && size <= 16384 {
+			for i := 0; i < n; i++ {
+				se.Deliver(rec13(22, 0, 1000+i, make([]byte, size)), ce.LocalAddr())
+			}
 		}
 	}
 	c := dtlcp.VerifNewRawConn(se, ce.LocalAddr(), false, hv)
